@@ -47,6 +47,18 @@ func (c *hctx) Err() error {
 }
 func (c *hctx) Value(any) any { return nil }
 
+// A hang (a goroutine that neither returns, nor is queued, nor is parked) can only happen on a broken semaphore.
+// The first one is given 3 s; later ones 100 ms; after 50 the remaining histories are answered `hang` unrun.
+var (
+	hangs       int
+	hangTimeout = 3 * time.Second
+)
+
+func noteHang() {
+	hangs++
+	hangTimeout = 100 * time.Millisecond
+}
+
 const (
 	stRunning = iota
 	stOK
@@ -60,6 +72,7 @@ type acq struct {
 	status   int32
 	reported bool
 	doomed   bool
+	we       bool // the goroutine runs WaitEmpty (Acquire(size) then Release(size))
 	live     bool // goroutine started and not yet known to have finished
 }
 
@@ -72,8 +85,8 @@ type hist struct {
 	hang     bool
 }
 
-func (h *hist) startAcquire(n int64, pre bool) *acq {
-	a := &acq{ctx: newCtx(), fin: make(chan struct{}), live: true}
+func (h *hist) startAcquire(n int64, pre bool, we bool) *acq {
+	a := &acq{ctx: newCtx(), fin: make(chan struct{}), live: true, we: we}
 	if pre {
 		close(a.ctx.done)
 	}
@@ -87,7 +100,12 @@ func (h *hist) startAcquire(n int64, pre bool) *acq {
 			close(a.fin) // before the counter: quiesce() must not see the count without the closed channel
 			h.finished.Add(1)
 		}()
-		err := h.sem.Acquire(a.ctx, n)
+		var err error
+		if we {
+			err = h.sem.WaitEmpty(a.ctx)
+		} else {
+			err = h.sem.Acquire(a.ctx, n)
+		}
 		if err == nil {
 			st = stOK
 		} else {
@@ -95,6 +113,26 @@ func (h *hist) startAcquire(n int64, pre bool) *acq {
 		}
 	}()
 	return a
+}
+
+// snapshot reads the state without ever blocking for ever on a mutex that a broken semaphore left locked.
+func (h *hist) snapshot() (cur, size int64, q []int64, ok bool) {
+	deadline := time.Now().Add(hangTimeout)
+	for i := 0; ; i++ {
+		cur, size, q, ok = semaphore.VerifTrySnapshot(h.sem)
+		if ok {
+			return
+		}
+		if i < 200 {
+			runtime.Gosched()
+		} else {
+			time.Sleep(20 * time.Microsecond)
+			if time.Now().After(deadline) {
+				h.hang = true
+				return
+			}
+		}
+	}
 }
 
 func dotted(xs []int64) string {
@@ -110,10 +148,14 @@ func dotted(xs []int64) string {
 
 // quiesce waits until every started Acquire goroutine has either finished, or sits in the queue, or is parked (doomed).
 func (h *hist) quiesce() (cur, size int64, q []int64) {
-	deadline := time.Now().Add(3 * time.Second)
+	deadline := time.Now().Add(hangTimeout)
 	for i := 0; ; i++ {
 		fin := h.finished.Load()
-		cur, size, q = semaphore.VerifSnapshot(h.sem)
+		var ok bool
+		cur, size, q, ok = h.snapshot()
+		if !ok {
+			return
+		}
 		if fin == h.finished.Load() && fin+int64(len(q))+h.doomedN == h.started {
 			return
 		}
@@ -135,30 +177,45 @@ func (h *hist) obs(res string) string {
 		return "hang"
 	}
 	var done []int64
+	panics := 0
 	for t, a := range h.acqs {
 		if a.live {
 			select {
 			case <-a.fin:
 				a.live = false
-				if atomic.LoadInt32(&a.status) == stOK {
+				st := atomic.LoadInt32(&a.status)
+				if st == stOK {
 					done = append(done, int64(t))
+				} else if st == stPanic && a.we {
+					// WaitEmpty was admitted (its Acquire returned nil) and its Release panicked
+					done = append(done, int64(t))
+					panics++
 				}
 			default:
 			}
 		}
 	}
 	sort.Slice(done, func(i, j int) bool { return done[i] < done[j] })
+	if panics > 0 {
+		res = fmt.Sprintf("%s!%d", res, panics)
+	}
 	return fmt.Sprintf("%s:%d:%d:%s:%s", res, cur, size, dotted(q), dotted(done))
 }
 
-func call(f func()) (panicked bool) {
-	defer func() {
-		if recover() != nil {
-			panicked = true
-		}
+// call runs a non-blocking API call; it reports a panic, and a hang if the call does not return (mutex left locked).
+func (h *hist) call(f func()) (panicked bool) {
+	done := make(chan bool, 1)
+	go func() {
+		defer func() { done <- recover() != nil }()
+		f()
 	}()
-	f()
-	return false
+	select {
+	case p := <-done:
+		return p
+	case <-time.After(hangTimeout):
+		h.hang = true
+		return false
+	}
 }
 
 func (h *hist) op(tok string) (string, bool) {
@@ -170,7 +227,7 @@ func (h *hist) op(tok string) (string, bool) {
 		if rest != "" {
 			return "", false
 		}
-		h.sem.Observe()
+		h.call(func() { h.sem.Observe() })
 		return h.obs("ok"), true
 	}
 	if c == 'c' {
@@ -185,7 +242,7 @@ func (h *hist) op(tok string) (string, bool) {
 		close(a.ctx.done)
 		select {
 		case <-a.fin:
-		case <-time.After(3 * time.Second):
+		case <-time.After(hangTimeout):
 			h.hang = true
 			return "hang", true
 		}
@@ -202,18 +259,29 @@ func (h *hist) op(tok string) (string, bool) {
 		}
 		return h.obs("panic"), true
 	}
-	n, err := strconv.ParseInt(rest, 10, 64)
-	if err != nil {
-		return "", false
+	var n int64
+	if c == 'w' {
+		if rest != "" {
+			return "", false
+		}
+	} else {
+		var err error
+		n, err = strconv.ParseInt(rest, 10, 64)
+		if err != nil {
+			return "", false
+		}
 	}
 	switch c {
-	case 'a', 'x':
-		_, _, q0 := semaphore.VerifSnapshot(h.sem)
-		a := h.startAcquire(n, c == 'x')
+	case 'a', 'x', 'w':
+		_, size0, q0, ok0 := h.snapshot()
+		if !ok0 {
+			return "hang", true
+		}
+		a := h.startAcquire(n, c == 'x', c == 'w')
 		if c == 'x' {
 			select {
 			case <-a.fin:
-			case <-time.After(3 * time.Second):
+			case <-time.After(hangTimeout):
 				h.hang = true
 				return "hang", true
 			}
@@ -221,7 +289,7 @@ func (h *hist) op(tok string) (string, bool) {
 			select {
 			case <-a.fin:
 			case <-a.ctx.called:
-			case <-time.After(3 * time.Second):
+			case <-time.After(hangTimeout):
 				h.hang = true
 				return "hang", true
 			}
@@ -229,6 +297,10 @@ func (h *hist) op(tok string) (string, bool) {
 		select {
 		case <-a.fin:
 			st := atomic.LoadInt32(&a.status)
+			if c == 'w' && st == stPanic && size0 >= 0 {
+				// WaitEmpty: Acquire(size) was admitted on the fast path, Release(size) panicked; obs reports it
+				return h.obs("ok"), true
+			}
 			if st != stOK {
 				a.live = false
 			}
@@ -242,7 +314,10 @@ func (h *hist) op(tok string) (string, bool) {
 		default:
 		}
 		// the goroutine left its first critical section without acquiring: enqueued or parked
-		_, _, q1 := semaphore.VerifSnapshot(h.sem)
+		_, _, q1, ok1 := h.snapshot()
+		if !ok1 {
+			return "hang", true
+		}
 		if len(q1) == len(q0)+1 {
 			return h.obs("blk"), true
 		}
@@ -251,7 +326,7 @@ func (h *hist) op(tok string) (string, bool) {
 		return h.obs("doom"), true
 	case 't':
 		var ok bool
-		if call(func() { ok = h.sem.TryAcquire(n) }) {
+		if h.call(func() { ok = h.sem.TryAcquire(n) }) {
 			return h.obs("panic"), true
 		}
 		if ok {
@@ -259,17 +334,17 @@ func (h *hist) op(tok string) (string, bool) {
 		}
 		return h.obs("F"), true
 	case 'r':
-		if call(func() { h.sem.Release(n) }) {
+		if h.call(func() { h.sem.Release(n) }) {
 			return h.obs("panic"), true
 		}
 		return h.obs("ok"), true
 	case 'f':
-		if call(func() { h.sem.ForceAcquire(n) }) {
+		if h.call(func() { h.sem.ForceAcquire(n) }) {
 			return h.obs("panic"), true
 		}
 		return h.obs("ok"), true
 	case 's':
-		if call(func() { h.sem.SetSize(n) }) {
+		if h.call(func() { h.sem.SetSize(n) }) {
 			return h.obs("panic"), true
 		}
 		return h.obs("ok"), true
@@ -278,8 +353,14 @@ func (h *hist) op(tok string) (string, bool) {
 }
 
 func runHistory(size0 int64, ops string) string {
+	if hangs >= 50 {
+		return "hang"
+	}
 	h := &hist{sem: semaphore.NewWeighted(size0)}
 	defer func() {
+		if h.hang {
+			noteHang()
+		}
 		for _, a := range h.acqs {
 			select {
 			case <-a.ctx.done:
